@@ -22,8 +22,8 @@ theorem tie_lin_fit (x : K) (p0 p1 : K × K) (h : p0.1 ≠ p1.1) :
   have hd : p1.1 - p0.1 ≠ 0 := sub_ne_zero.mpr (Ne.symm h)
   first
     | (simp only [Gen.lin_fit, linFit]; done)
-    | (simp only [Gen.lin_fit, linFit]; ring)
-    | (simp only [Gen.lin_fit, linFit]; field_simp; ring)
+    | (simp only [Gen.lin_fit, linFit]; ring1)
+    | (simp only [Gen.lin_fit, linFit]; field_simp; ring1)
     | (simp only [Gen.lin_fit, linFit]; congr 2 <;> first | rfl | ring | (congr 1; field_simp; ring) | (field_simp; ring))
     | (simp only [Gen.lin_fit, linFit]; field_simp; ring_nf)
 
@@ -32,8 +32,8 @@ theorem tie_exp_fit (pw : K → K) (x : K) (p0 p1 : K × K) (h : p0.1 ≠ p1.1) 
   have hd : p1.1 - p0.1 ≠ 0 := sub_ne_zero.mpr (Ne.symm h)
   first
     | (simp only [Gen.exp_fit, expFit]; done)
-    | (simp only [Gen.exp_fit, expFit]; ring)
-    | (simp only [Gen.exp_fit, expFit]; field_simp; ring)
+    | (simp only [Gen.exp_fit, expFit]; ring1)
+    | (simp only [Gen.exp_fit, expFit]; field_simp; ring1)
     | (simp only [Gen.exp_fit, expFit]; congr 2 <;> first | rfl | ring | (congr 1; field_simp; ring) | (field_simp; ring))
     | (simp only [Gen.exp_fit, expFit]; field_simp; ring_nf)
 
@@ -42,8 +42,8 @@ theorem tie_exp_xy_fit (pw : K → K) (x : K) (p0 p1 : K × K) (h : p0.1 ≠ p1.
   have hd : p1.1 - p0.1 ≠ 0 := sub_ne_zero.mpr (Ne.symm h)
   first
     | (simp only [Gen.exp_xy_fit, expXYFit]; done)
-    | (simp only [Gen.exp_xy_fit, expXYFit]; ring)
-    | (simp only [Gen.exp_xy_fit, expXYFit]; field_simp; ring)
+    | (simp only [Gen.exp_xy_fit, expXYFit]; ring1)
+    | (simp only [Gen.exp_xy_fit, expXYFit]; field_simp; ring1)
     | (simp only [Gen.exp_xy_fit, expXYFit]; congr 2 <;> first | rfl | ring | (congr 1; field_simp; ring) | (field_simp; ring))
     | (simp only [Gen.exp_xy_fit, expXYFit]; field_simp; ring_nf)
 
@@ -52,8 +52,8 @@ theorem tie_exp_lin_fit (pw : K → K) (x : K) (p0 p1 : K × K) (h : p0.1 ≠ p1
   have hd : p1.1 - p0.1 ≠ 0 := sub_ne_zero.mpr (Ne.symm h)
   first
     | (simp only [Gen.exp_lin_fit, expLinFit, tie_lin_fit x p0 p1 h, tie_exp_fit pw x p0 p1 h]; done)
-    | (simp only [Gen.exp_lin_fit, expLinFit, tie_lin_fit x p0 p1 h, tie_exp_fit pw x p0 p1 h]; ring)
-    | (simp only [Gen.exp_lin_fit, expLinFit, tie_lin_fit x p0 p1 h, tie_exp_fit pw x p0 p1 h]; field_simp; ring)
+    | (simp only [Gen.exp_lin_fit, expLinFit, tie_lin_fit x p0 p1 h, tie_exp_fit pw x p0 p1 h]; ring1)
+    | (simp only [Gen.exp_lin_fit, expLinFit, tie_lin_fit x p0 p1 h, tie_exp_fit pw x p0 p1 h]; field_simp; ring1)
     | (simp only [Gen.exp_lin_fit, expLinFit, tie_lin_fit x p0 p1 h, tie_exp_fit pw x p0 p1 h]; congr 2 <;> first | rfl | ring | (congr 1; field_simp; ring) | (field_simp; ring))
     | (simp only [Gen.exp_lin_fit, expLinFit, tie_lin_fit x p0 p1 h, tie_exp_fit pw x p0 p1 h]; field_simp; ring_nf)
 
@@ -62,8 +62,8 @@ theorem tie_lin_exp_xy_fit (pw : K → K) (x : K) (p0 p1 : K × K) (h : p0.1 ≠
   have hd : p1.1 - p0.1 ≠ 0 := sub_ne_zero.mpr (Ne.symm h)
   first
     | (simp only [Gen.lin_exp_xy_fit, linExpXYFit, tie_lin_fit x p0 p1 h, tie_exp_xy_fit pw x p0 p1 h]; done)
-    | (simp only [Gen.lin_exp_xy_fit, linExpXYFit, tie_lin_fit x p0 p1 h, tie_exp_xy_fit pw x p0 p1 h]; ring)
-    | (simp only [Gen.lin_exp_xy_fit, linExpXYFit, tie_lin_fit x p0 p1 h, tie_exp_xy_fit pw x p0 p1 h]; field_simp; ring)
+    | (simp only [Gen.lin_exp_xy_fit, linExpXYFit, tie_lin_fit x p0 p1 h, tie_exp_xy_fit pw x p0 p1 h]; ring1)
+    | (simp only [Gen.lin_exp_xy_fit, linExpXYFit, tie_lin_fit x p0 p1 h, tie_exp_xy_fit pw x p0 p1 h]; field_simp; ring1)
     | (simp only [Gen.lin_exp_xy_fit, linExpXYFit, tie_lin_fit x p0 p1 h, tie_exp_xy_fit pw x p0 p1 h]; congr 2 <;> first | rfl | ring | (congr 1; field_simp; ring) | (field_simp; ring))
     | (simp only [Gen.lin_exp_xy_fit, linExpXYFit, tie_lin_fit x p0 p1 h, tie_exp_xy_fit pw x p0 p1 h]; field_simp; ring_nf)
 
